@@ -183,6 +183,23 @@ fn gen_headers(rng: &mut StdRng) -> Vec<(String, String)> {
             v.push((k, val));
         }
     }
+    // the header names the library itself gives a meaning to, carrying values it would not have
+    // produced: on the wire they are ordinary entries of the map and must round-trip untouched
+    for name in ["timeout", "content-type", "status-message"] {
+        if rng.gen_range(0..6) == 0 && !v.iter().any(|(k, _)| k == name) {
+            let val = match rng.gen_range(0..8) {
+                0 => String::new(),
+                1 => "soon".to_owned(),
+                2 => "-1".to_owned(),
+                3 => "1.5s".to_owned(),
+                4 => "18446744073709551616".to_owned(),
+                5 => " 42 ".to_owned(),
+                6 => "é日本".to_owned(),
+                _ => rng.gen::<u64>().to_string(),
+            };
+            v.push((name.to_owned(), val));
+        }
+    }
     v
 }
 
